@@ -33,6 +33,7 @@ PROP = {  # commit subject fragment -> (property, id)
  "Display of an OwnedLazyValue": ("C13", "F32"),
  "to_lazyvalue of true, false or null": ("C13", "F33"),
  "from_value cannot produce a RawNumber": ("C19", "F35"),
+ "to_value of a lazy value stores its private token": ("C19", "F37"),
  "raw number beyond the range of f64) as None": ("C19", "F36"),
 }
 KNOWN = []
